@@ -32,7 +32,7 @@ def aim_base(rng, row, w, case, fields=('n',)):
             big = [m_ for m_ in case['mems'] if m_[1] >= 0x20000]
             if big and rng.random() < 0.8:
                 # a large device that does not begin at a multiple of the access size: aligned accesses at 64 KiB / 4 KiB multiples inside it
-                b_, sz_ = big[0]
+                b_, sz_ = big[0][0], big[0][1]
                 p = rng.choice(((b_ + 0x10000) & ~0xFFFF, (b_ + 0x20000) & ~0xFFFF, b_ + 0x10000, (b_ + 0x1000) & ~0xFFF)) + rng.choice((0, 0, -4, -2, -8, 4, -1))
                 if f.get('P', 0) and isinstance(f.get('i'), int) and 'U' in f and len(row.fields.get('i', ())) in (8, 12) and rng.random() < 0.8:
                     p += -f['i'] if f['U'] else f['i']            # (immediate-offset forms: the access, not the base, goes there)
